@@ -108,7 +108,7 @@ def c07(payload):
                     bad.append('SOURCE DATA of source %d: printed power %r W is not Re (V I*) / 2 = %r W of the printed voltage and current' % (k, p_, pw))
             # (f) the same sources through the command line, one of them held at 0 V: a valid computation (positive total power)
             #     ends in a report
-            if all(w.get('tag') is not None or not w.get('taper') for w in spec['wires']) and all(l['kind'] == 'imp' for l in spec['loads']) \
+            if all(w['type'] == 'wire' for w in spec['wires']) and all(w.get('tag') is not None or not w.get('taper') for w in spec['wires']) and all(l['kind'] == 'imp' for l in spec['loads']) \
                and all(len(a_) == 1 for l in spec['loads'] for a_ in l['attach']):
                 import io as _io, contextlib as _cl
                 from mininec.mininec import main as _main
